@@ -41,7 +41,7 @@ func cfgSpecial(c Config) (map[string]bool, map[string]int) {
 	}
 	for _, o := range c.Opts {
 		if o.N == "special" {
-			m = specialMaps()[o.I%4]
+			m = specialMaps()[o.I%5]
 		}
 	}
 	if m == nil {
